@@ -262,7 +262,7 @@ pub fn gen_op<H: BuildHasher + Default + Clone>(rng: &mut Rng, q: &AnyQ<H>, pf: 
             }
             "iter_mut" => {
                 let n = rng.below(len + 3);
-                let alphabet: &[Call] = if pq { &[Call::F, Call::F, Call::F, Call::H] } else { &[Call::F, Call::F, Call::B, Call::B, Call::L, Call::H] };
+                let alphabet: &[Call] = if pq { &[Call::F, Call::F, Call::F, Call::H, Call::N(1)] } else { &[Call::F, Call::F, Call::B, Call::B, Call::L, Call::H, Call::N(1), Call::M(1), Call::N(0), Call::M(2)] };
                 let prog = (0..n).map(|_| (*rng.pick(alphabet), gen_w(rng, pf))).collect();
                 Op::IterMut { forget: rng.chance(1, 8), prog }
             }
@@ -295,15 +295,15 @@ pub fn gen_op<H: BuildHasher + Default + Clone>(rng: &mut Rng, q: &AnyQ<H>, pf: 
             "clear" => Op::Clear,
             "drain" => {
                 let n = rng.below(len + 3);
-                Op::Drain { forget: rng.chance(1, 4), calls: gen_calls(rng, n, &[Call::F, Call::F, Call::B, Call::L, Call::H]) }
+                Op::Drain { forget: rng.chance(1, 4), calls: gen_calls(rng, n, &[Call::F, Call::F, Call::B, Call::L, Call::H, Call::N(1), Call::M(1), Call::N(0), Call::M(0), Call::N(3)]) }
             }
             "iter" => {
                 let n = rng.below(len + 3);
-                Op::Iter(gen_calls(rng, n, &[Call::F, Call::F, Call::B, Call::L, Call::H]))
+                Op::Iter(gen_calls(rng, n, &[Call::F, Call::F, Call::B, Call::L, Call::H, Call::N(1), Call::M(1), Call::N(0), Call::M(0), Call::N(3)]))
             }
             "into_iter" => {
                 let n = rng.below(len + 3);
-                Op::IntoIter(gen_calls(rng, n, &[Call::F, Call::F, Call::B, Call::L, Call::H]))
+                Op::IntoIter(gen_calls(rng, n, &[Call::F, Call::F, Call::B, Call::L, Call::H, Call::N(1), Call::M(1), Call::N(0), Call::M(0), Call::N(3)]))
             }
             "into_vec" => Op::IntoVec,
             "sorted_vec" => {
@@ -312,9 +312,9 @@ pub fn gen_op<H: BuildHasher + Default + Clone>(rng: &mut Rng, q: &AnyQ<H>, pf: 
             "sorted_iter" => {
                 let n = rng.below(len + 3);
                 if pq {
-                    Op::IntoSortedIter(gen_calls(rng, n, &[Call::F, Call::F, Call::F, Call::H]))
+                    Op::IntoSortedIter(gen_calls(rng, n, &[Call::F, Call::F, Call::F, Call::H, Call::N(1), Call::N(0)]))
                 } else {
-                    Op::IntoSortedIter(gen_calls(rng, n, &[Call::F, Call::F, Call::B, Call::B, Call::L, Call::H]))
+                    Op::IntoSortedIter(gen_calls(rng, n, &[Call::F, Call::F, Call::B, Call::B, Call::L, Call::H, Call::N(1), Call::M(1), Call::N(0), Call::M(0), Call::N(4), Call::M(5)]))
                 }
             }
             "len" => if rng.chance(1, 2) { Op::Len } else { Op::IsEmpty },
@@ -588,8 +588,8 @@ pub fn pattern_stream<H: BuildHasher + Default + Clone>(sink: &mut Sink, kinds: 
 
 /// all call sequences of length `l` over the iterator alphabets, at sizes 0..=maxn, for every iterator type
 pub fn iter_stream<H: BuildHasher + Default + Clone>(sink: &mut Sink, kinds: &[Kind], maxn: u64, l: u32, which: &[&str]) {
-    let full = [Call::F, Call::B, Call::L, Call::H];
-    let front = [Call::F, Call::H];
+    let full = [Call::F, Call::B, Call::L, Call::H, Call::N(0), Call::N(1), Call::N(2), Call::M(0), Call::M(1), Call::M(3)];
+    let front = [Call::F, Call::H, Call::N(0), Call::N(1), Call::N(3)];
     for kind in kinds {
         for n in 0..=maxn {
             let xs: Vec<E> = (0..n).map(|k| (k, 0, ((k * 7 + 3) % 5) as i64)).collect();
@@ -641,7 +641,9 @@ pub fn bulk_stream<H: BuildHasher + Default + Clone>(sink: &mut Sink, rng: &mut 
         if !sink.step(&mut q, &Op::FromVec(xs0), Lookup::Owned) { continue; }
         for _ in 0..r.range(1, 4) {
             let n = match r.below(4) { 0 => r.below(5), 1 => r.range(20, 40), 2 => n0 + r.below(10), _ => r.below(80) };
-            let xs = gen_pairs(&mut r, &q, &pf, n).into_iter().map(|(k, _, p)| (k, 7, p)).collect::<Vec<_>>();
+            let existing = present_keys(&q);
+            let all_existing = r.chance(1, 3) && !existing.is_empty();
+            let xs = gen_pairs(&mut r, &q, &pf, n).into_iter().map(|(k, _, p)| (if all_existing { *r.pick(&existing) } else { k }, 7, p)).collect::<Vec<_>>();
             let (lo, hi) = gen_hint(&mut r, n);
             let op = match r.below(10) {
                 0 => Op::FromVec(xs),
